@@ -204,6 +204,15 @@ class NFlow(BaseFlow):
         self._transform = transform
         self._distribution = distribution
 
+        # glasflow.nflows initialises the running variance of its BatchNorm
+        # to zero, which makes a flow that has not been trained numerically
+        # singular in evaluation mode. Use one, as in `reset_weights`.
+        from glasflow.nflows.transforms import BatchNorm
+
+        for module in self._transform.modules():
+            if isinstance(module, BatchNorm):
+                module.running_var.fill_(1.0)
+
     def forward(self, x, context=None):
         """
         Apply the forward transformation and return samples in the latent
